@@ -1019,7 +1019,13 @@ func (r *run) evaluate() {
 	}
 	allFinal := true
 	// readers
-	for rd, x := range r.inFlightIn {
+	var parked []int
+	for rd := range r.inFlightIn {
+		parked = append(parked, rd)
+	}
+	sort.Ints(parked)
+	for _, rd := range parked {
+		x := r.inFlightIn[rd]
 		sig := "reader-parked/" + cfg.Pool
 		r.viol("C04", sig, "reader %d is still inside In(id %d) (called at %v, now %v) although the pipeline holds %d/%d events and nothing else is pending", rd, x.line.ID, x.inCallT, simrt.SimNow(), r.bound, cfg.Capacity)
 	}
